@@ -50,6 +50,17 @@ chk("C12",
     "Coq proof (queue invariants; induction over task bodies, Permutation) + regenerated guards tie + vm_compute correspondence",
     "DESIGN.md §4 C12")
 
+chk("C10",
+    "Coq theorems over the model of Worker.run / Task clean-up for every task body (statements, clean-up registrations first/last, yields) and every set of statements raising OperationalError, in the body and in clean-ups, single or repeated: the daemon never aborts, the queue slot is released exactly once per delivery, every registered clean-up is started exactly once in order (none on a yielding step), the worker exits iff a fault was hit and a fresh copy is queued iff the task asked for it; the first registration of a pull (its space reservation) is released exactly once; atomic() blocks and single-write scripts are all-or-nothing under a fault at any statement; a statement outside a transaction on an auto-connecting database is retried exactly once. Tie: guard/handler shape translated each run (T1); scripted tasks through the real Task and Worker.run, real pull tasks with a fault at every statement index, the retry mixin over all flag combinations and WorkerPool.check with real threads compared with the model in Coq / monitored (T2).",
+    "Coq kernel+VM; translator fragment; sqlite rollback semantics; faults injected at Database.execute_sql (BEGIN/COMMIT never fail); retry mixin over a stub base class (the fallback connector fails under the installed peewee 4.5); workers >= 1",
+    "Coq proof (induction over bodies and clean-up deques, transaction scripts) + handler-shape tie + vm_compute correspondence with the real Worker.run",
+    "DESIGN.md §4 C10")
+chk("C14",
+    "Coq theorems: for every history of pull dispatches (any sizes, limits, free-space readings) and task ends, the reserved total equals twice the sizes of the queued-or-running pulls, hence is zero when none, never negative, and release never raises; the release is the first clean-up a pull task registers, so it is started exactly once for every continuation of the body and every database-fault pattern (Worker model); a pull is queued only if 2 x size fits in free space net of reservations and the node is neither under its minimum nor over its limit; refusals and the transport 'fits' test reserve nothing. Tie: guards, reserve_factor, mutex use and the position of the registration in pull_async translated each run (T1); real DefaultNodeIO.pull with a scripted statvfs and real pull tasks ending by every path (already present, no route, transport failure, digest mismatch, success, database error at statement k) run by the real Worker.run, reserved total compared after every event in Coq (T2).",
+    "Coq kernel+VM; translator fragment; scripted os.statvfs; under_min/over_max booleans taken from the real node properties; one critical section per reserve/release call",
+    "Coq proof (history invariant by induction; composition with the Worker clean-up theorem) + regenerated guards tie + vm_compute correspondence",
+    "DESIGN.md §4 C14")
+
 ALL = [f"C{i:02d}" for i in range(1, 21)]
 NA_REASON = "check not yet built in this revision (planned: see DESIGN.md §7); nothing is claimed for it"
 
